@@ -138,6 +138,8 @@ pub struct Outcome {
     pub init_fab_idx: u8,
     pub panic: Option<String>,
     pub max_copies: u32,
+    /// (secured datagrams seen by the passive monitor, byte-identical retransmissions among them)
+    pub tap_stats: (u64, u64),
 }
 
 fn secure_case(s: &[VerifSession]) -> Vec<VerifSession> {
@@ -614,6 +616,7 @@ pub fn run_case(p: &Params) -> Outcome {
         }
     });
     out.tap_violations = tap.violations();
+    out.tap_stats = tap.stats();
 
     out
 }
